@@ -231,6 +231,40 @@ func sweep(w *hc.W, c *cs, ci int) {
 	}
 	w.Count("chars:"+c.name, int64(n))
 	w.Count("multibyte:"+c.name, int64(multi))
+	// byte-driven complement: a character of the set may decode to more than one rune (Big5
+	// 88 62 is a letter followed by its combining macron); every two-byte sequence that is
+	// valid text and decodes to several runes must deliver all of them, in order
+	if *hc.Shard == 0 && c.name != "UTF-8" {
+		for b0 := 0x80; b0 <= 0xff; b0++ {
+			for b1 := 0x20; b1 <= 0xff; b1++ {
+				in := []byte{byte(b0), byte(b1)}
+				out, err := c.enc.NewDecoder().Bytes(in)
+				if err != nil || utf8.RuneCount(out) < 2 || strings.ContainsRune(string(out), utf8.RuneError) {
+					continue
+				}
+				// (two one-byte characters are the code point sweep's business)
+				if one, err := c.enc.NewDecoder().Bytes(in[:1]); err == nil && len(one) > 0 && !strings.ContainsRune(string(one), utf8.RuneError) {
+					continue
+				}
+				var want []ri.Ev
+				ok := true
+				for _, x := range string(out) {
+					want = append(want, runeEv(x))
+					if x < 0x20 {
+						ok = false
+					}
+				}
+				if !ok {
+					continue
+				}
+				w.AddDistinct(1)
+				w.Count("multirune:"+c.name, 1)
+				if bad < 6 && !check(w, r, "multi-rune-char", in, want, string(out)) {
+					bad++
+				}
+			}
+		}
+	}
 	// U+FFFD REPLACEMENT CHARACTER is a printable scalar value too; it is kept out of the
 	// sweep above (and of the representatives) only so that its fate is reported on its own
 	if *hc.Shard == 0 {
